@@ -2,7 +2,7 @@
    root <D<n>> <node>...             the loader model of the code as it is (after the null-node repair), with the
                                      accept-everything delegate of `llbuild buildsystem parse`
    root_unrepaired <D<n>> <node>...  the code before the repair (c91b855)
-   answer: "OK|ERR <codes,..|.> <ntools> <ntargets> <nnodes> <ncommands> <hex default>" (ERR: codes only) or "CRASH"
+   answer: "OK|ERR <codes,..|.> <ntools> <ntargets> <nnodes> <ncommands> <hex default>" (ERR: the state when loading stopped) or "CRASH"
    node ::= S<hex> | B<hex> | A<hex> | N | X | M<n> (<key> <value>)^n | Q<n> <node>^n        (as printed by bfile_driver tree) *)
 let rec parse_node (toks : string list) : ynode * string list =
   match toks with
@@ -36,12 +36,12 @@ let parse_docs (toks : string list) : ynode list =
   | _ -> failwith "expected D<n>"
 let show_result (r : load_result) : string =
   let codes l = if l = [] then "." else String.concat "," (List.map dec_of_n l) in
+  let counts s = Printf.sprintf "%d %d %d %d %s" (List.length s.st_tools) (List.length s.st_targets)
+      (List.length s.st_nodes) (List.length s.st_commands) (hex_of_bytes s.st_default) in
   match r with
   | LoadCrash -> "CRASH"
-  | LoadError _ -> "ERR " ^ codes (errors_of r)
-  | LoadOk s ->
-    Printf.sprintf "OK %s %d %d %d %d %s" (codes (errors_of r)) (List.length s.st_tools) (List.length s.st_targets)
-      (List.length s.st_nodes) (List.length s.st_commands) (hex_of_bytes s.st_default)
+  | LoadError s -> "ERR " ^ codes (errors_of r) ^ " " ^ counts s
+  | LoadOk s -> "OK " ^ codes (errors_of r) ^ " " ^ counts s
 let () =
   register "root" (fun toks -> show_result (load_parse_cmd true (parse_docs toks)));
   register "root_unrepaired" (fun toks -> show_result (load_parse_cmd false (parse_docs toks)));
